@@ -36,6 +36,10 @@ let cur_rep = ref ""
    replica of the current case is tracked from the logged before/after states; without it T3 is residue
    only (C20) and a read-level violation (C05 C08) is not attributed to it *)
 let t3_drop = ref false
+(* set by the driver's main loop as soon as the implementation's result of a logged call of the current case differs from the
+   model's: from then on the case is no longer an execution of the unchanged semantics, and a violation found in it is not
+   attributed to a known finding (the known findings are behaviours of the unchanged crate, which the model reproduces) *)
+let deviated = ref false
 let has_pending_ (s : sx) : bool =
   let rec go = function
     | L [A "deferred"; L (A "M" :: (_ :: _))] -> true
@@ -54,7 +58,8 @@ let rec entry_dropped_with_pending (b : sx) (a : sx) : bool =
 
 let report prop what =
   (* a violation inside a listed known-finding class is reported as KNOWN *)
-  let kf = List.filter (fun (fid, _) -> Known.applies fid prop && not (fid = "T3" && prop <> "C20" && not !t3_drop)) !classes in
+  let kf = if !deviated then [] else
+    List.filter (fun (fid, _) -> Known.applies fid prop && not (fid = "T3" && prop <> "C20" && not !t3_drop)) !classes in
   match kf with
   | (fid, _) :: _ ->
       incr knowns;
@@ -67,7 +72,7 @@ let expect prop what b = count prop; if not b then report prop (what ())
 let expect_all props what b = List.iter (fun p -> expect p what b) props
 
 let on_case (_id : string) (t : string) (line : string) =
-  t3_drop := false;
+  t3_drop := false; deviated := false;
   ty := t; tainted := false; merges_seen := false; all_causal := true; all_per_actor := true; hist := []; pre := []; case_nontrivial := false; classes := [];
   Hashtbl.reset know_of; last_vm := None;
   (match parse_sx line with
@@ -508,7 +513,10 @@ let on_call (case : string) (cmd : string) (f : string) (a : sx list) =
      | _ -> ());
     if not !tainted then (try c11_call pre_ fn a with Bad _ -> ());
     (if is_map pre_ && pre_ = !ty && (fn = "apply" || fn = "merge") then
-       match a with [b; _; r] -> if entry_dropped_with_pending b r then t3_drop := true | _ -> ());
+       match a, !pre with
+       | _, A "law" :: _ -> ()          (* a merge computed for a law probe is not a replica's step *)
+       | [b; _; r], _ -> if entry_dropped_with_pending b r then t3_drop := true
+       | _ -> ());
     if not !tainted then (try opctor_call pre_ fn a with Bad _ -> ());
     (try c13_reads_call pre_ fn a with Bad _ -> ());
     if not !tainted && discipline_ok () then begin generic_call pre_ fn a; ctx_call pre_ fn a end
